@@ -195,7 +195,12 @@ func genModel(r *fw.Rand) *policyModel {
 	m.Accept, m.Reject, m.Store, m.Discard = pickList(r), pickList(r), pickList(r), pickList(r)
 	np := r.Weighted([]int{3, 4, 3, 2})
 	for j := 0; j < np; j++ {
-		m.Origins = append(m.Origins, genPattern(r))
+		// half template patterns, half composed ones (any arrangement of the grammar, see patterns.go)
+		if r.Bool() {
+			m.Origins = append(m.Origins, genPatternComposed(r))
+		} else {
+			m.Origins = append(m.Origins, genPattern(r))
+		}
 	}
 	if np > 0 && r.Chance(1, 8) {
 		// the empty pattern, only next to another entry (a lone "" is the unset list)
